@@ -22,8 +22,12 @@ func init() {
 			for _, z := range zs {
 				for _, h := range []string{"VerifC11Encode", "VerifC11Decode", "VerifC11Bijective"} {
 					in := mk("transform", h, cs("z", z))
+					if z > 16 && h == "VerifC11Encode" {
+						in.Case["nomerge"] = 1 // beyond 16 levels the merged adder chain is too hard; fork per exit iteration instead
+					}
 					in.Unwind = 40
 					in.MaxPaths = 5000
+					in.MaxSeconds = 3000
 					is = append(is, in)
 				}
 			}
@@ -91,7 +95,7 @@ func init() {
 					is = append(is, in)
 				}
 			}
-			for _, c := range [][4]int{{3, 25, 25, 3}, {3, 25, 25, 4}, {4, 25, 25, 3}, {2, 3, 25, 4}, {25, 25, 25, 25}, {1, 1, 25, 3}} {
+			for _, c := range [][4]int{{3, 25, 25, 3}, {3, 25, 25, 4}, {4, 25, 25, 3}, {2, 3, 25, 4}, {25, 25, 25, 25}, {1, 25, 25, 3}} {
 				in := mk("transform", "VerifC13Spatial", cs("h", c[0], "zk", c[1], "e", c[2], "ov", c[3]))
 				in.Unwind = 80
 				is = append(is, in)
